@@ -261,6 +261,10 @@ def step (s : St) (j : Json) : R (St × Json) := do
     let a ← s.recH j "a"
     let b ← s.recH j "b"
     return (s, Json.mkObj [("eq", recEq (s.h.recCell a).r (s.h.recCell b).r)])
+  | "rec_hash" =>
+    let a ← s.recH j "a"
+    let b ← s.recH j "b"
+    return (s, Json.mkObj [("heq", recHashSame (s.h.recCell a).r (s.h.recCell b).r)])
   | "c03_classify" =>
     let c ← s.cont j "c"
     let q ← getNs3 (← j.getObjVal? "q")
